@@ -128,7 +128,7 @@ def parse_answer(s):
     return d
 
 
-INT_KEYS = {'bip', 'reg', 'k', 'lab'}
+INT_KEYS = {'bip', 'reg', 'k', 'lab', 'which'}
 VEC_KEYS = {'ev', 'sv', 'wc', 'v', 'mean'}
 
 
@@ -186,6 +186,91 @@ def call(f):
         return 'err ' + type(e).__name__
 
 
+SOLVER_EXCEPTION_BUDGET = {'quick': 40, 'thorough': 150}   # fits lost to ARPACK / LAPACK (counted, never judged)
+EVALUATION_FLOOR = {'quick': 3000, 'thorough': 15000}      # a run that evaluates less did not check the property
+
+
+def run_est(ctx, f):
+    """Run an estimator.  Only a failure of the external solver itself (ARPACK / LAPACK) makes the fit
+    disappear (counted, budgeted in `run`); the five exception classes of the models become `err <Class>`; every other
+    exception becomes `err <Class>` too, so that the run line disagrees with a model that answers `ok`."""
+    from scipy.sparse.linalg import ArpackError
+    try:
+        return call(f)
+    except (ArpackError, np.linalg.LinAlgError) as e:
+        ctx.count('solver-exception:' + type(e).__name__)
+        return None
+    except Exception as e:
+        ctx.count('unexpected-exception:' + type(e).__name__)
+        return 'err ' + type(e).__name__
+
+
+# ---- input variants: the same matrix in another container / dtype / storage ---------------------------------------
+def make_input(a, variant, seed=0):
+    """`a`: canonical float64 CSR.  Returns what is handed to the estimator.  `variant` keys: format
+    (csr|csc|coo|lil|dense), dtype (float64|float32|int64|bool), unsorted, dup (a stored entry split in two)."""
+    if not variant:
+        return a
+    import random as _r
+    rng = _r.Random(seed)
+    m = a.copy()
+    dt = variant.get('dtype', 'float64')
+    if dt != 'float64':
+        m = m.astype(dt)
+    if variant.get('dup') and m.nnz and dt != 'bool':
+        coo = sparse.coo_matrix(m)
+        cand = [t for t in range(coo.nnz) if dt.startswith('float') or coo.data[t] >= 2]
+        if cand:
+            t = rng.choice(cand)
+            first = coo.data[t] / 2 if dt.startswith('float') else coo.data[t] // 2
+            data = np.concatenate([coo.data, [coo.data[t] - first]])
+            data[t] = first
+            rows = np.concatenate([coo.row, [coo.row[t]]])
+            cols = np.concatenate([coo.col, [coo.col[t]]])
+            order = np.lexsort((cols, rows))
+            indptr = np.concatenate([[0], np.cumsum(np.bincount(rows, minlength=a.shape[0]))])
+            m = sparse.csr_matrix((data[order], cols[order], indptr), shape=a.shape)
+    if variant.get('unsorted'):
+        m = graphs.unsorted_copy(sparse.csr_matrix(m), rng)
+    fmt = variant.get('format', 'csr')
+    if fmt == 'csc':
+        m = sparse.csc_matrix(m)
+    elif fmt == 'coo':
+        m = sparse.coo_matrix(m)
+    elif fmt == 'lil':
+        m = sparse.lil_matrix(m)
+    elif fmt == 'dense':
+        m = np.asarray(sparse.csr_matrix(m).toarray())
+    return m
+
+
+def canonical(a_in):
+    """What `check_format` makes of the input, and its dense denotation (duplicates summed)."""
+    c = sparse.csr_matrix(a_in)
+    return c, np.asarray(c.toarray(), dtype=float)
+
+
+def pick_variant(rng, allow_dense=True):
+    if rng.random() < 0.75:
+        return None
+    v = {}
+    v['format'] = rng.choice(['csr', 'csc', 'coo', 'lil'] + (['dense'] if allow_dense else []))
+    v['dtype'] = rng.choice(['float64', 'float32', 'int64', 'bool'])
+    if v['format'] == 'csr':
+        v['unsorted'] = rng.random() < 0.5
+        v['dup'] = rng.random() < 0.4
+    return v
+
+
+def oracle_reg(adj, reg):
+    """Documented rule, computed independently (scipy on the non-zero entries)."""
+    if reg >= 0:
+        return float(reg)
+    g = sparse.csr_matrix(adj != 0)
+    ncomp = sparse.csgraph.connected_components(g, directed=True, connection='strong', return_labels=False)
+    return 0. if ncomp == 1 else float(-reg)
+
+
 # ---- capturing the external pieces ----------------------------------------------------------------------------
 _patched = False
 
@@ -229,6 +314,8 @@ def patch():
         def cap_svds(*a, **k):
             u, s, vt = orig_svds(*a, **k)
             CAP['svds'] = (np.array(u), np.array(s), np.array(vt))
+            CAP['svds_call'] = {'matrix': a[0] if a else k.get('A'), 'k': a[1] if len(a) > 1 else k.get('k'),
+                                'which': k.get('which', 'LM')}
             return u, s, vt
         cap_svds._c09_cap = True
         svd_mod.svds = cap_svds
@@ -324,16 +411,36 @@ def spec_case(key, sig, line, desc, nontrivial=True):
 
 
 # ---------------------------------------------------------------- Spectral
-def fit_spectral(ctx, a, nc, dec, reg, normalized, fb=False):
+def spectral_oracle(adj, reg, rw, nc):
+    """Dense oracle (LAPACK): the eigenvalues the documentation promises — those of the regularised Laplacian in
+    increasing order (of the transition matrix in decreasing order), the first skipped, `min(n_components, n-2)` of them."""
+    n = adj.shape[0]
+    r = oracle_reg(adj, reg)
+    areg = adj + r / n
+    d = areg.sum(axis=1)
+    lap = np.diag(d) - areg
+    if rw:
+        with np.errstate(all='ignore'):
+            sq = np.sqrt(d)
+            s = np.where(sq == 0, 0., 1. / np.where(sq == 0, 1., sq))
+        lap = s[:, None] * lap * s[None, :]
+    w = np.linalg.eigvalsh((lap + lap.T) / 2)
+    count = max(0, min(nc, n - 2))
+    w = w[1:1 + count]
+    return (1 - w) if rw else w
+
+
+def fit_spectral(ctx, a, nc, dec, reg, normalized, fb=False, variant=None):
     from sknetwork.embedding import Spectral
     patch()
     a = sparse.csr_matrix(a)
-    dense = a.toarray().astype(float)
+    a_in = make_input(a, variant, seed=a.nnz + 7 * a.shape[0])
+    a, dense = canonical(a_in)
     nr, ncol = a.shape
     rw = dec == 'rw'
     params = {'n_components': nc, 'decomposition': dec, 'regularization': reg, 'normalized': normalized,
               'force_bipartite': fb}
-    desc = {'estimator': 'Spectral', 'matrix': mat_desc(a), 'params': params}
+    desc = {'estimator': 'Spectral', 'matrix': mat_desc(a), 'params': params, 'variant': variant}
     sig0 = {'entry': 'Spectral.fit', 'decomposition': dec, 'normalized': normalized}
     CAP['eig'] = None
     est = Spectral(nc, decomposition=dec, regularization=reg, normalized=normalized)
@@ -342,15 +449,14 @@ def fit_spectral(ctx, a, nc, dec, reg, normalized, fb=False):
         with warnings.catch_warnings():
             warnings.simplefilter('ignore')
             np.random.seed(12345)
-            est.fit(a, force_bipartite=fb)
+            est.fit(a_in, force_bipartite=fb)
         return 'ok'
-    try:
-        status = call(f)
-    except Exception as e:  # ARPACK did not converge etc.: not a verdict
-        ctx.count('solver-exception:' + type(e).__name__)
+    status = run_est(ctx, f)
+    if status is None:
         return None
     cap = CAP.get('eig')
-    gkey = ('Spectral', a.shape, a.indptr.tobytes(), a.indices.tobytes(), a.data.tobytes(), nc, dec, reg, normalized, fb)
+    gkey = ('Spectral', a.shape, a.indptr.tobytes(), a.indices.tobytes(), a.data.tobytes(), nc, dec, reg, normalized, fb,
+            repr(variant))
     head = 'c09.spectral %d %d %s %d %s %d %s %s %s' % (nr, ncol, enc_mat(dense), a.nnz, enc_bool(fb), nc,
                                                        enc_bool(rw), enc_f(reg), enc_bool(normalized))
     if status != 'ok' or cap is None:
@@ -382,8 +488,8 @@ def fit_spectral(ctx, a, nc, dec, reg, normalized, fb=False):
             ctx.count('operator-mismatch:Laplacian')
         k_out = len(est.eigenvalues_)
         nontriv = a.nnz > 1 and k_out >= 1
-        impl = 'ok bip=%s reg=%s k=%d ev=%s evec=%s emb=%s embcol=%s' % (
-            enc_bool(bip), enc_bool(bool(est.regularized)), cap['k'], out_vec(est.eigenvalues_),
+        impl = 'ok which=%s bip=%s reg=%s k=%d ev=%s evec=%s emb=%s embcol=%s' % (
+            cap['which'], enc_bool(bip), enc_bool(bool(est.regularized)), cap['k'], out_vec(est.eigenvalues_),
             out_mat(est.eigenvectors_), out_mat(est.embedding_), out_mat(est.embedding_col_ if bip else None))
         run = head + ' %s %s' % (enc_vec(cap['values']), enc_mat(cap['vectors']))
         if has_ties(cap['values']):
@@ -392,6 +498,11 @@ def fit_spectral(ctx, a, nc, dec, reg, normalized, fb=False):
         spec = 'c09.spec_spectral %d %s %s %s %s %s %s' % (n, enc_mat(adj), enc_f(reg), enc_bool(rw),
                                                           enc_vec(est.eigenvalues_), enc_mat(est.eigenvectors_), enc_f(TOL_SPEC))
         cases.append(Case(gkey + ('run',), dict(sig0, check='eigen-equation'), run, impl, spec, nontriv, desc))
+        # extremality and count: the documented part of the spectrum, from a dense eigendecomposition
+        want = spectral_oracle(adj, reg, rw, nc)
+        cases.append(spec_case(gkey + ('extreme',), dict(sig0, check='extremal-eigenvalues'),
+                               'c09.spec_extreme %s %s %s' % (enc_vec(want), enc_vec(est.eigenvalues_), enc_f(TOL_SPEC)),
+                               desc, nontriv))
         full = np.vstack([est.embedding_row_, est.embedding_col_]) if bip else est.embedding_
         if normalized:
             cases.append(spec_case(gkey + ('unit',), dict(sig0, check='unit-norm'),
@@ -407,13 +518,50 @@ def fit_spectral(ctx, a, nc, dec, reg, normalized, fb=False):
     return Fit([contract], builder)
 
 
+# ---------------------------------------------------------------- the operators on their own (any sign of the factor)
+def fit_operators(ctx, a, reg):
+    """`Laplacian(adj, reg, normalized)` and the multipliers of RandomProjection (`Regularizer`, `Normalizer`) applied to
+    integer data, for positive, zero and negative `reg` (the estimators only pass `reg >= 0`)."""
+    from sknetwork.linalg import Laplacian, Regularizer, Normalizer
+    a = sparse.csr_matrix(a).astype(float)
+    dense = a.toarray()
+    n = a.shape[0]
+    desc = {'estimator': 'operators', 'matrix': mat_desc(a), 'params': {'regularization': reg}}
+    gkey = ('operators', a.shape, a.indptr.tobytes(), a.indices.tobytes(), a.data.tobytes(), reg)
+    w = dense.sum(axis=1)
+    x = np.array([ctx.rng.choice([-2, -1, 0, 1, 2, 3]) for _ in range(n)], dtype=float)
+    m = np.array([[ctx.rng.choice([-1, 0, 1, 2]) for _ in range(2)] for _ in range(n)], dtype=float)
+    out = []
+    for nm in (False, True):
+        if nm and not np.all(w + reg > 0):
+            continue        # sqrt of a negative regularised degree: NaN on both sides, nothing to compare
+        op = Laplacian(a, reg, nm)
+        out.append(Case(gkey + ('lapmv', nm), {'entry': 'Laplacian.dot', 'check': 'laplacian-operator', 'normalized': nm},
+                        'c09.lapmv %d %s %s %s %s' % (n, enc_mat(dense), enc_f(reg), enc_bool(nm), enc_vec(x)),
+                        'ok v=' + out_vec(op.dot(x)), None, a.nnz > 1, desc))
+    for rw in (False, True):
+        op = Normalizer(a, reg) if rw else Regularizer(a, reg)
+        with np.errstate(all='ignore'):
+            prod = np.asarray(op.dot(m), dtype=float)
+        if not np.all(np.isfinite(prod)):
+            continue
+        out.append(Case(gkey + ('rpmult', rw), {'entry': 'Normalizer.dot' if rw else 'Regularizer.dot', 'check': 'multiplier'},
+                        'c09.rpmult %d 2 %s %s %s %s' % (n, enc_mat(dense), enc_f(reg), enc_bool(rw), enc_mat(m)),
+                        'ok m=' + out_mat(prod), None, a.nnz > 1, desc))
+    return Fit([], lambda ok: out)
+
+
 # ---------------------------------------------------------------- GSVD / SVD / PCA
-def fit_svd(ctx, kind, a, nc, reg=None, fr=0.5, fc=0.5, fs=0., normalized=True, solver='dense', predict_rows=()):
+def fit_svd(ctx, kind, a, nc, reg=None, fr=0.5, fc=0.5, fs=0., normalized=True, solver='dense', predict_rows=(),
+            variant=None):
+    """solver: 'dense' (exact dense SVD object, scrambled order), 'lanczos' (recording LanczosSVD object),
+    'string' (the default path: solver='lanczos' given by name, the estimator creates its own LanczosSVD)."""
     from sknetwork.embedding import GSVD, SVD, PCA
     patch()
     DenseSolver, CapLanczos, dense_of = make_solvers()
     a = sparse.csr_matrix(a)
-    dense = a.toarray().astype(float)
+    a_in = make_input(a, variant, seed=a.nnz + 7 * a.shape[0])
+    a, dense = canonical(a_in)
     nr, ncol = a.shape
     if kind == 'SVD':
         fr, fc = 0., 0.
@@ -421,27 +569,33 @@ def fit_svd(ctx, kind, a, nc, reg=None, fr=0.5, fc=0.5, fs=0., normalized=True, 
         fr, fc, fs, reg = 0., 0., 0., None
     params = {'n_components': nc, 'regularization': reg, 'factor_row': fr, 'factor_col': fc, 'factor_singular': fs,
               'normalized': normalized, 'solver': solver, 'predict_rows': list(predict_rows)}
-    desc = {'estimator': kind, 'matrix': mat_desc(a), 'params': params}
+    desc = {'estimator': kind, 'matrix': mat_desc(a), 'params': params, 'variant': variant}
     sig0 = {'entry': kind + '.fit', 'normalized': normalized}
-    sol = DenseSolver(ctx.rng) if solver == 'dense' else CapLanczos()
+    if solver == 'dense':
+        sol = DenseSolver(ctx.rng)
+    elif solver == 'lanczos':
+        sol = CapLanczos()
+    else:
+        sol = 'lanczos'
     if kind == 'GSVD':
         est = GSVD(nc, regularization=reg, factor_row=fr, factor_col=fc, factor_singular=fs, normalized=normalized, solver=sol)
     elif kind == 'SVD':
         est = SVD(nc, regularization=reg, factor_singular=fs, normalized=normalized, solver=sol)
     else:
         est = PCA(nc, normalized=normalized, solver=sol)
+    CAP['svds'] = None
+    CAP['svds_call'] = None
 
     def f():
         with warnings.catch_warnings():
             warnings.simplefilter('ignore')
-            est.fit(a)
+            est.fit(a_in)
         return 'ok'
-    try:
-        status = call(f)
-    except Exception as e:
-        ctx.count('solver-exception:' + type(e).__name__)
+    status = run_est(ctx, f)
+    if status is None:
         return None
-    gkey = (kind, a.shape, a.indptr.tobytes(), a.indices.tobytes(), a.data.tobytes(), nc, reg, fr, fc, fs, normalized, solver)
+    gkey = (kind, a.shape, a.indptr.tobytes(), a.indices.tobytes(), a.data.tobytes(), nc, reg, fr, fc, fs, normalized, solver,
+            repr(variant))
     regtok = enc_optf(reg)
     if kind == 'PCA':
         head = 'c09.pca %d %d %s %d %d %s' % (nr, ncol, enc_mat(dense), a.nnz, nc, enc_bool(normalized))
@@ -451,6 +605,13 @@ def fit_svd(ctx, kind, a, nc, reg=None, fr=0.5, fc=0.5, fs=0., normalized=True, 
     if status != 'ok':
         run = head + ' - _ _'
         return Fit([], lambda ok: [Case(gkey + ('run',), dict(sig0, check='run'), run, status, None, False, desc)])
+    if solver == 'string':
+        sol = est.solver          # the LanczosSVD the estimator created for itself
+        call_ = CAP.get('svds_call') or {}
+        sol_matrix, sol_k, raw = call_.get('matrix'), call_.get('k'), CAP.get('svds')
+    else:
+        sol_matrix, sol_k, raw = sol.matrix, sol.k, getattr(sol, 'raw', None)
+    which = (CAP.get('svds_call') or {}).get('which', 'LM')
     sv_c, u_c, v_c = (np.array(sol.singular_values_, dtype=float), np.array(sol.singular_vectors_left_, dtype=float),
                       np.array(sol.singular_vectors_right_, dtype=float))
     if kind == 'PCA':
@@ -460,7 +621,7 @@ def fit_svd(ctx, kind, a, nc, reg=None, fr=0.5, fc=0.5, fs=0., normalized=True, 
         contract = 'c09.contract_svd %d %d %s %s %s %s %s %s %s %s' % (nr, ncol, enc_mat(dense), regtok, enc_f(fr), enc_f(fc),
                                                                       enc_vec(sv_c), enc_mat(u_c), enc_mat(v_c),
                                                                       enc_f(TOL_CONTRACT))
-    op_dense = dense_of(sol.matrix)
+    op_dense = dense_of(sol_matrix)
     scale = 1 + np.abs(op_dense).max()
     solver_ok = bool(np.all(np.abs(op_dense.dot(v_c) - u_c * sv_c[None, :]) <= TOL_CONTRACT * scale) and
                      np.all(np.abs(op_dense.T.dot(u_c) - v_c * sv_c[None, :]) <= TOL_CONTRACT * scale))
@@ -473,12 +634,13 @@ def fit_svd(ctx, kind, a, nc, reg=None, fr=0.5, fc=0.5, fs=0., normalized=True, 
             oprun = 'c09.gsvd_op %d %d %s %s %s %s' % (nr, ncol, enc_mat(dense), regtok, enc_f(fr), enc_f(fc))
         cases.append(Case(gkey + ('op',), dict(sig0, check='operator-given-to-solver'), oprun, 'ok m=' + out_mat(op_dense),
                           None, a.nnz > 1, desc))
-        if solver == 'lanczos' and sol.raw is not None:
-            u0, s0, vt0 = sol.raw
+        if solver != 'dense' and raw is not None:
+            u0, s0, vt0 = raw
             if not has_ties(s0):
                 cases.append(Case(gkey + ('svdpost',), {'entry': 'LanczosSVD.fit', 'check': 'order'},
                                   'c09.svdpost %d %d %s %s %s' % (nr, ncol, enc_mat(u0), enc_vec(s0), enc_mat(vt0)),
-                                  'ok sv=%s left=%s right=%s' % (out_vec(sv_c), out_mat(u_c), out_mat(v_c)), None, True, desc))
+                                  'ok which=%s sv=%s left=%s right=%s' % (which, out_vec(sv_c), out_mat(u_c), out_mat(v_c)),
+                                  None, True, desc))
         if not ok and not solver_ok:
             ctx.count('contract-failed:' + solver)
             return cases
@@ -498,7 +660,7 @@ def fit_svd(ctx, kind, a, nc, reg=None, fr=0.5, fc=0.5, fs=0., normalized=True, 
                 enc_mat(est.embedding_col_), enc_f(TOL_SPEC))
         else:
             impl = 'ok k=%d sv=%s left=%s right=%s er=%s ec=%s wc=%s' % (
-                sol.k, out_vec(est.singular_values_), out_mat(est.singular_vectors_left_),
+                sol_k, out_vec(est.singular_values_), out_mat(est.singular_vectors_left_),
                 out_mat(est.singular_vectors_right_), out_mat(est.embedding_row_), out_mat(est.embedding_col_),
                 out_vec(est.weights_col_))
             spec = 'c09.spec_gsvd %d %d %s %s %s %s %s %s %s %s %s %s %s %s' % (
@@ -513,6 +675,24 @@ def fit_svd(ctx, kind, a, nc, reg=None, fr=0.5, fc=0.5, fs=0., normalized=True, 
             ctx.count('nonfinite-skipped')
             return cases
         cases.append(Case(gkey + ('run',), dict(sig0, check='singular-triplets-and-embedding'), run, impl, spec, nontriv, desc))
+        # extremality and count: the largest singular values of the operator (dense LAPACK oracle), as many as documented
+        sv_all = np.linalg.svd(op_dense, compute_uv=False)
+        count = nc if kind == 'PCA' else min(nc, min(nr, ncol) - 1)
+        cases.append(spec_case(gkey + ('extreme',), dict(sig0, check='extremal-singular-values'),
+                               'c09.spec_extreme %s %s %s' % (enc_vec(sv_all[:count]),
+                                                              enc_vec(np.sort(np.asarray(est.singular_values_, dtype=float))[::-1]),
+                                                              enc_f(TOL_SPEC)), desc, nontriv))
+        cases.append(spec_case(gkey + ('nonneg',), dict(sig0, check='singular-values-nonnegative'),
+                               'c09.spec_nonneg %s %s' % (enc_vec(est.singular_values_), enc_f(TOL_SPEC)), desc, nontriv))
+        svp = np.asarray(est.singular_values_, dtype=float)
+        if k_out >= 1 and svp.min() > COND_MIN * max(svp.max(), 1e-300):
+            # unit, mutually orthogonal singular vectors (for sigma ~ 0 the vectors are not determined)
+            cases.append(spec_case(gkey + ('orth-left',), dict(sig0, check='orthonormal-vectors', side='left'),
+                                   'c09.spec_orthonormal %d %d %s %s' % (nr, k_out, enc_mat(est.singular_vectors_left_),
+                                                                        enc_f(TOL_SPEC)), desc, nontriv))
+            cases.append(spec_case(gkey + ('orth-right',), dict(sig0, check='orthonormal-vectors', side='right'),
+                                   'c09.spec_orthonormal %d %d %s %s' % (ncol, k_out, enc_mat(est.singular_vectors_right_),
+                                                                        enc_f(TOL_SPEC)), desc, nontriv))
         if normalized:
             cases.append(spec_case(gkey + ('unit-row',), dict(sig0, check='unit-norm', side='row'),
                                    'c09.spec_unit %d %d %s %s' % (nr, k_out, enc_mat(est.embedding_row_), enc_f(TOL_SPEC)),
@@ -578,18 +758,16 @@ def predict_cases(ctx, kind, est, a, dense, reg, fr, fc, fs, normalized, rows, g
                 ncol, enc_optf(reg), enc_f(fr), enc_f(fc), enc_f(fs), enc_bool(normalized), enc_vec(est.singular_values_),
                 enc_mat(est.singular_vectors_right_), enc_vec(est.weights_col_), len(idx), ncol, enc_mat(x), xnnz)
         if isinstance(p, str):
-            if xnnz > 0:
-                # a non-empty row of the fitted matrix must be predictable
-                cases.append(Case(key, dict(sigp, check='predict-reproduces-embedding'), run, p,
-                                  'c09.spec_raised ' + p.split(' ')[1], True, pdesc))
-            else:
-                cases.append(Case(key, dict(sigp, check='run'), run, p, None, False, pdesc))
+            # every row of the fitted matrix (also an empty one: an isolated node) must be predictable
+            cases.append(Case(key, dict(sigp, check='predict-reproduces-embedding', empty_row=bool(xnnz == 0)), run, p,
+                              'c09.spec_raised ' + p.split(' ')[1], True, pdesc))
             continue
         impl = 'ok e=' + out_mat(p)
         spec = None
         ok_rows = well and np.all(np.isfinite(p))
         if ok_rows and raw_norm is not None:
-            ok_rows = bool(np.all(raw_norm[idx] > COND_MIN))
+            # a row that is exactly null stays null on both sides; a tiny non-null one is amplified by the normalisation
+            ok_rows = bool(np.all((raw_norm[idx] > COND_MIN) | (raw_norm[idx] == 0)))
         if ok_rows:
             spec = 'c09.spec_close %d %d %s %s %s' % (len(idx), k_out, enc_mat(p), enc_mat(np.asarray(est.embedding_row_)[idx]),
                                                      enc_f(TOL_PREDICT))
@@ -607,15 +785,16 @@ def predict_cases(ctx, kind, est, a, dense, reg, fr, fc, fs, normalized, rows, g
 
 
 # ---------------------------------------------------------------- RandomProjection
-def fit_rp(ctx, a, nc, alpha, n_iter, rw, reg, normalized, seed, fb=False):
+def fit_rp(ctx, a, nc, alpha, n_iter, rw, reg, normalized, seed, fb=False, variant=None):
     from sknetwork.embedding import RandomProjection
     patch()
     a = sparse.csr_matrix(a)
-    dense = a.toarray().astype(float)
+    a_in = make_input(a, variant, seed=a.nnz + 7 * a.shape[0])
+    a, dense = canonical(a_in)
     nr, ncol = a.shape
     params = {'n_components': nc, 'alpha': alpha, 'n_iter': n_iter, 'random_walk': rw, 'regularization': reg,
               'normalized': normalized, 'random_state': seed, 'force_bipartite': fb}
-    desc = {'estimator': 'RandomProjection', 'matrix': mat_desc(a), 'params': params}
+    desc = {'estimator': 'RandomProjection', 'matrix': mat_desc(a), 'params': params, 'variant': variant}
     sig0 = {'entry': 'RandomProjection.fit', 'random_walk': rw, 'normalized': normalized}
     est = RandomProjection(nc, alpha=alpha, n_iter=n_iter, random_walk=rw, regularization=reg, normalized=normalized,
                            random_state=seed)
@@ -623,14 +802,16 @@ def fit_rp(ctx, a, nc, alpha, n_iter, rw, reg, normalized, seed, fb=False):
     def f():
         with warnings.catch_warnings():
             warnings.simplefilter('ignore')
-            est.fit(a, force_bipartite=fb)
+            est.fit(a_in, force_bipartite=fb)
         return 'ok'
-    status = call(f)
+    status = run_est(ctx, f)
+    if status is None:
+        return None
     bip = fb or nr != ncol
     n = nr + ncol if bip else nr
     g = np.linalg.qr(np.random.RandomState(seed).normal(size=(n, nc)))[0]
     gkey = ('RP', a.shape, a.indptr.tobytes(), a.indices.tobytes(), a.data.tobytes(), nc, alpha, n_iter, rw, reg, normalized,
-            seed, fb)
+            seed, fb, repr(variant))
     run = 'c09.rp %d %d %s %d %s %s %d %s %s %s %s' % (nr, ncol, enc_mat(dense), a.nnz, enc_bool(fb), enc_f(alpha), n_iter,
                                                       enc_bool(rw), enc_f(reg), enc_bool(normalized), enc_mat(g))
     if status != 'ok':
@@ -669,7 +850,9 @@ def fit_louvain(ctx, a, which, fb=False):
             warnings.simplefilter('ignore')
             est.fit(a, force_bipartite=fb)
         return 'ok'
-    status = call(f)
+    status = run_est(ctx, f)
+    if status is None:
+        return None
     cap = CAP.get('louvain')
     gkey = ('LE', a.shape, a.indptr.tobytes(), a.indices.tobytes(), a.data.tobytes(), which, fb)
     if cap is None:
@@ -743,6 +926,31 @@ def rank_of(a):
     return int(np.linalg.matrix_rank(np.asarray(a.toarray(), dtype=float)))
 
 
+def with_stored_zeros(rng, a, symmetric=True, count=2):
+    """The same matrix with a few explicitly stored zeros on absent positions (a stored zero is not an edge)."""
+    a = sparse.csr_matrix(a).astype(float)
+    n, m = a.shape
+    d = a.toarray()
+    absent = [(i, j) for i in range(n) for j in range(m) if d[i, j] == 0 and (i != j or n != m)]
+    if not absent:
+        return a
+    extra = []
+    for (i, j) in rng.sample(absent, min(count, len(absent))):
+        extra.append((i, j))
+        if symmetric and n == m:
+            extra.append((j, i))
+    coo = a.tocoo()
+    rows = np.concatenate([coo.row, [e[0] for e in extra]]).astype(int)
+    cols = np.concatenate([coo.col, [e[1] for e in extra]]).astype(int)
+    data = np.concatenate([coo.data, np.zeros(len(extra))])
+    keys = {}
+    for r, c, v in zip(rows, cols, data):
+        keys[(int(r), int(c))] = keys.get((int(r), int(c)), 0.) + float(v)
+    ks = sorted(keys)
+    indptr = np.concatenate([[0], np.cumsum(np.bincount([k[0] for k in ks], minlength=n))])
+    return sparse.csr_matrix((np.array([keys[k] for k in ks]), np.array([k[1] for k in ks], dtype=int), indptr), shape=(n, m))
+
+
 def build_fits(ctx):
     rng = ctx.rng
     quick = ctx.quick
@@ -753,13 +961,16 @@ def build_fits(ctx):
             fits.append(f)
             ctx.count('fit:' + tag)
 
-    # ---- Spectral: exhaustive small undirected graphs
+    def weighted_graph(kind, n, es):
+        return sym_weighted(rng, n, es) if kind in graphs.UNDIRECTED_KINDS else _mk(n, es, [rng.choice(WEIGHTS) for _ in es])
+
+    # ---- Spectral: exhaustive small undirected graphs (n = 4: unit or random symmetric weights)
     for n in (2, 3, 4):
         gs = list(graphs.all_undirected(n, loops=(n <= 3)))
         for es in gs:
             if not es:
                 continue
-            a = _mk(n, es)
+            a = sym_weighted(rng, n, es) if (n == 4 and rng.random() < 0.5) else _mk(n, es)
             for dec in ('rw', 'laplacian'):
                 for reg in (-1, 0, 1):
                     nm = rng.random() < 0.5 if quick else None
@@ -772,25 +983,55 @@ def build_fits(ctx):
                 a = sym_weighted(rng, 5, es)
                 add(fit_spectral(ctx, a, rng.choice([1, 2, 3]), rng.choice(['rw', 'laplacian']), rng.choice([-1, 0, 0.5]),
                                  rng.random() < 0.5), 'spectral-n5')
-    # ---- Spectral: structured random graphs (weighted), directed ones take the bipartite route
-    for name, n, es, _ in graphs.suite(rng, 90 if quick else 900, 3, 12):
+    # ---- Spectral: structured random graphs (weighted), directed ones take the bipartite route; other containers / dtypes
+    for name, n, es, _ in graphs.suite(rng, 110 if quick else 1000, 3, 12):
         if not es:
             continue
         kind = name.rstrip('0123456789')
-        a = sym_weighted(rng, n, es) if kind in graphs.UNDIRECTED_KINDS else _mk(n, es, [rng.choice(WEIGHTS) for _ in es])
+        a = weighted_graph(kind, n, es)
         nc = rng.choice([1, 2, 3, n + 3])
         dec = rng.choice(['rw', 'laplacian'])
         reg = rng.choice([-1, -0.5, 0, 0.25, 2])
         fb = rng.random() < 0.1
-        add(fit_spectral(ctx, a, nc, dec, reg, rng.random() < 0.6, fb), 'spectral-' + kind)
+        add(fit_spectral(ctx, a, nc, dec, reg, rng.random() < 0.6, fb, variant=pick_variant(rng)), 'spectral-' + kind)
+    # ---- Spectral: larger graphs (ARPACK works in a Krylov space smaller than n: ncv = 20 < n)
+    for name, n, es, _ in graphs.suite(rng, 10 if quick else 60, 24, 40,
+                                       kinds=['blocks', 'grid', 'cycle', 'random_undirected', 'two_components']):
+        if not es:
+            continue
+        kind = name.rstrip('0123456789')
+        a = weighted_graph(kind, n, es)
+        add(fit_spectral(ctx, a, rng.choice([1, 2, 3]), rng.choice(['rw', 'laplacian']), rng.choice([-1, 0.5]),
+                         rng.random() < 0.5), 'spectral-large-' + kind)
     # ---- Spectral: rectangular biadjacency matrices
     for _ in range(25 if quick else 250):
         b = random_rect(rng, rng.randint(2, 6), rng.randint(2, 6), rng.choice([0.3, 0.5, 0.8]))
         add(fit_spectral(ctx, b, rng.choice([1, 2, 3]), rng.choice(['rw', 'laplacian']), rng.choice([-1, 0, 0.5]),
-                         rng.random() < 0.6), 'spectral-rect')
+                         rng.random() < 0.6, variant=pick_variant(rng)), 'spectral-rect')
+    # ---- stored zeros (not edges): bridging two components, or on one side only; the automatic regularisation must see
+    #      the graph of the non-zero entries
+    bridge = sparse.csr_matrix((np.array([1., 1., 0., 0., 1., 1.]),
+                                (np.array([0, 1, 1, 2, 2, 3]), np.array([1, 0, 2, 1, 3, 2]))), shape=(4, 4))
+    zero_stream = [bridge]
+    for name, n, es, _ in graphs.suite(rng, 12 if quick else 120, 4, 9, kinds=['two_components', 'isolated', 'path', 'blocks']):
+        if es:
+            zero_stream.append(with_stored_zeros(rng, sym_weighted(rng, n, es), symmetric=rng.random() < 0.7,
+                                                 count=rng.choice([1, 2, 4])))
+    for a in zero_stream:
+        for reg in ((-1, 0, 0.5) if a is bridge else (rng.choice([-1, -0.5]), rng.choice([0, 0.5]))):
+            add(fit_spectral(ctx, a, rng.choice([1, 2]), rng.choice(['rw', 'laplacian']), reg, rng.random() < 0.5),
+                'spectral-stored-zeros')
+            add(fit_rp(ctx, a, 2, 0.5, 2, rng.random() < 0.5, reg, rng.random() < 0.5, rng.randrange(1000)),
+                'rp-stored-zeros')
+    # ---- the operators on their own, with positive, zero and negative regularisation
+    for name, n, es, _ in graphs.suite(rng, 25 if quick else 250, 2, 9):
+        if not es:
+            continue
+        kind = name.rstrip('0123456789')
+        add(fit_operators(ctx, weighted_graph(kind, n, es), rng.choice([-2, -0.5, -0.25, 0, 0.7, 3])), 'operators-' + kind)
 
     # ---- GSVD / SVD / PCA
-    def svd_variants(a, tag, count):
+    def svd_variants(a, tag, count, solvers=('dense', 'dense', 'dense', 'dense', 'lanczos', 'lanczos', 'string')):
         nr, ncol = a.shape
         rk = rank_of(a)
         for _ in range(count):
@@ -800,19 +1041,20 @@ def build_fits(ctx):
                 nc = rng.randint(1, max(1, min(kmax, rk - (1 if kind == 'PCA' else 0)) or 1))
             else:
                 nc = rng.choice([1, 2, 3, kmax + 2])
-            reg = rng.choice([None, None, 0, 0.5, 2])
+            reg = rng.choice([None, None, 0, 0.5, 2, -0.25])
             fr, fc = rng.choice([(0.5, 0.5), (0.5, 0.5), (1., 0.), (0., 1.), (0.25, 0.75), (1., 1.)])
             fs = rng.choice([0., 0., 0.5, 1., 0.3])
             normalized = rng.random() < 0.6
-            solver = 'lanczos' if rng.random() < 0.3 else 'dense'
+            solver = rng.choice(solvers)
             rows = []
             if rng.random() < 0.7:
-                nzrows = [i for i in range(nr) if a[i].nnz > 0]
-                if nzrows:
-                    rows.append(rng.choice(nzrows))
-                    if len(nzrows) > 1 and rng.random() < 0.5:
-                        rows.append(sorted(rng.sample(nzrows, min(len(nzrows), 3))))
-            add(fit_svd(ctx, kind, a, nc, reg, fr, fc, fs, normalized, solver, rows), tag + '-' + kind)
+                allrows = list(range(nr))
+                empty = [i for i in allrows if a[i].nnz == 0]
+                rows.append(rng.choice(empty) if (empty and rng.random() < 0.5) else rng.choice(allrows))
+                if nr > 1 and rng.random() < 0.5:
+                    rows.append(sorted(rng.sample(allrows, min(nr, 3))))
+            add(fit_svd(ctx, kind, a, nc, reg, fr, fc, fs, normalized, solver, rows, variant=pick_variant(rng)),
+                tag + '-' + kind)
 
     shapes = [(2, 2), (2, 3), (3, 2), (3, 3)]
     for nr, ncol in shapes:
@@ -825,21 +1067,24 @@ def build_fits(ctx):
         if not es:
             continue
         kind = name.rstrip('0123456789')
-        a = sym_weighted(rng, n, es) if kind in graphs.UNDIRECTED_KINDS else _mk(n, es, [rng.choice(WEIGHTS) for _ in es])
-        svd_variants(a, 'svd-' + kind, 2)
+        svd_variants(weighted_graph(kind, n, es), 'svd-' + kind, 2)
     for _ in range(40 if quick else 400):
         b = random_rect(rng, rng.randint(2, 8), rng.randint(2, 8), rng.choice([0.3, 0.6, 0.9]))
         svd_variants(b, 'svd-rect', 2)
+    # larger matrices through ARPACK only (Krylov space smaller than the matrix)
+    for _ in range(8 if quick else 50):
+        b = random_rect(rng, rng.randint(24, 36), rng.randint(24, 36), rng.choice([0.15, 0.3]))
+        svd_variants(b, 'svd-large', 1, solvers=('lanczos', 'string'))
 
     # ---- RandomProjection
     for name, n, es, _ in graphs.suite(rng, 40 if quick else 400, 2, 10):
         if not es:
             continue
         kind = name.rstrip('0123456789')
-        a = sym_weighted(rng, n, es) if kind in graphs.UNDIRECTED_KINDS else _mk(n, es, [rng.choice(WEIGHTS) for _ in es])
+        a = weighted_graph(kind, n, es)
         add(fit_rp(ctx, a, rng.choice([1, 2, 3, n + 2]), rng.choice([0.5, 0.25, 1., 2.]), rng.choice([0, 1, 3, 4]),
                    rng.random() < 0.5, rng.choice([-1, 0, 0.5, 1.5]), rng.random() < 0.6, rng.randrange(1000),
-                   rng.random() < 0.15), 'rp-' + kind)
+                   rng.random() < 0.15, variant=pick_variant(rng)), 'rp-' + kind)
     for _ in range(10 if quick else 100):
         b = random_rect(rng, rng.randint(2, 5), rng.randint(2, 5), 0.5)
         add(fit_rp(ctx, b, 2, 0.5, rng.choice([1, 3]), rng.random() < 0.5, rng.choice([-1, 0, 0.5]), rng.random() < 0.5,
@@ -862,14 +1107,20 @@ def build_fits(ctx):
     path3 = _mk(3, [(0, 1), (1, 0), (1, 2), (2, 1)])
     iso = _mk(4, [(0, 1), (1, 0)])
     zero_explicit = sparse.csr_matrix((np.array([1., 1., 0.]), (np.array([0, 1, 2]), np.array([1, 0, 0]))), shape=(3, 3))
+    tri_iso = sparse.csr_matrix(np.array([[0., 1, 1, 0], [1, 0, 2, 0], [1, 2, 0, 0], [0, 0, 0, 0]]))
     for a in (one, empty, path3, iso, zero_explicit):
         for nc in (0, -1, 1, 7):
-            add(fit_spectral(ctx, a, nc, 'rw', 0 if a is zero_explicit else -1, True), 'degenerate-spectral')
+            add(fit_spectral(ctx, a, nc, 'rw', -1, True), 'degenerate-spectral')
             add(fit_spectral(ctx, a, nc, 'laplacian', 0, False), 'degenerate-spectral')
             add(fit_svd(ctx, 'GSVD', a, nc, None, 0.5, 0.5, 0., True, 'dense', []), 'degenerate-svd')
             add(fit_svd(ctx, 'PCA', a, nc, None, 0., 0., 0., False, 'dense', []), 'degenerate-svd')
     add(fit_svd(ctx, 'GSVD', iso, 2, None, 0.5, 0.5, 0.5, True, 'dense', [0, [0, 1]]), 'degenerate-svd')
     add(fit_svd(ctx, 'GSVD', iso, 1, 0.5, 0.5, 0.5, 0., True, 'dense', [0, 3]), 'degenerate-svd')
+    # predict on an isolated node of the fitted graph (empty row)
+    add(fit_svd(ctx, 'GSVD', tri_iso, 2, 0.5, 0.5, 0.5, 0., False, 'dense', [3, [0, 3]]), 'degenerate-svd')
+    add(fit_svd(ctx, 'GSVD', tri_iso, 2, None, 0.5, 0.5, 0., True, 'dense', [3]), 'degenerate-svd')
+    add(fit_svd(ctx, 'PCA', tri_iso, 1, None, 0., 0., 0., False, 'dense', [3]), 'degenerate-svd')
+    add(fit_svd(ctx, 'SVD', tri_iso, 2, 2, 0., 0., 0.5, True, 'string', [3, 1]), 'degenerate-svd')
     add(fit_rp(ctx, iso, 2, 0.5, 3, True, 0, True, 1), 'degenerate-rp')
     add(fit_rp(ctx, empty, 2, 0.5, 3, False, -1, True, 1), 'degenerate-rp')
     add(fit_louvain(ctx, iso, 'remove'), 'degenerate-louvain')
@@ -895,18 +1146,23 @@ def fits_of_desc(ctx, d):
     a = mat_from_desc(d['matrix'])
     p = d.get('params', {})
     e = d['estimator']
+    # `matrix` is the canonical form of what was handed in; the container / dtype variant is replayed on top of it
+    # (a replayed `dup` splits again an entry of the already summed matrix: same denotation)
+    var = d.get('variant')
+    if e == 'operators':
+        return [fit_operators(ctx, a, p['regularization'])]
     if e == 'Spectral':
         return [fit_spectral(ctx, a, p['n_components'], p['decomposition'], p['regularization'], p['normalized'],
-                             p.get('force_bipartite', False))]
+                             p.get('force_bipartite', False), variant=var)]
     if e in ('GSVD', 'SVD', 'PCA'):
         rows = p.get('predict_rows') or ([d['predict'][0]] if d.get('predict') else [])
         rows = [tuple(r) if isinstance(r, list) else r for r in rows]
         rows = [list(r) if isinstance(r, tuple) else r for r in rows]
         return [fit_svd(ctx, e, a, p['n_components'], p['regularization'], p['factor_row'], p['factor_col'],
-                        p['factor_singular'], p['normalized'], p.get('solver', 'dense'), rows)]
+                        p['factor_singular'], p['normalized'], p.get('solver', 'dense'), rows, variant=var)]
     if e == 'RandomProjection':
         return [fit_rp(ctx, a, p['n_components'], p['alpha'], p['n_iter'], p['random_walk'], p['regularization'],
-                       p['normalized'], p['random_state'], p.get('force_bipartite', False))]
+                       p['normalized'], p['random_state'], p.get('force_bipartite', False), variant=var)]
     if e == 'LouvainEmbedding':
         return [fit_louvain(ctx, a, p['isolated_nodes'], p.get('force_bipartite', False))]
     raise ToolFailure('unknown estimator in case description: %r' % e)
@@ -915,6 +1171,14 @@ def fits_of_desc(ctx, d):
 def run(ctx):
     patch()
     run_fits(ctx, corpus_fits(ctx) + build_fits(ctx))
+    lost = sum(v for k, v in ctx.dist.items() if k.startswith('solver-exception:'))
+    ctx.extra['solver_exceptions'] = lost
+    if lost > SOLVER_EXCEPTION_BUDGET[ctx.tier]:
+        raise ToolFailure('%d fits lost to solver exceptions (budget %d): the run does not check the property'
+                          % (lost, SOLVER_EXCEPTION_BUDGET[ctx.tier]))
+    if ctx.evaluations < EVALUATION_FLOOR[ctx.tier]:
+        raise ToolFailure('only %d evaluations (floor %d): the run does not check the property'
+                          % (ctx.evaluations, EVALUATION_FLOOR[ctx.tier]))
     ctx.extra['tolerances'] = {'TOL_RUN': TOL_RUN, 'TOL_SPEC': TOL_SPEC, 'TOL_CONTRACT': TOL_CONTRACT,
                                'COND_MIN': COND_MIN, 'TOL_PREDICT': TOL_PREDICT}
 
